@@ -132,6 +132,7 @@ type peerScript struct {
 	dwrs     [][]byte
 	dwrBeh   []string // reaction to the k-th DWR overall
 	dwrIdx   int
+	onFirstCER func() // called once, after the first CER has been written and before the peer reacts
 }
 
 func ceaFor(kind string, hbh, e2e uint32) []byte {
@@ -193,8 +194,17 @@ func (p *peerScript) hook(c *memConn, b []byte) (int, error) {
 		}
 		p.dwrIdx++
 	}
+	first := p.onFirstCER
+	if cmd == 257 && req && len(p.cers) == 1 {
+		p.onFirstCER = nil
+	} else {
+		first = nil
+	}
 	p.mu.Unlock()
 	c.record(b)
+	if first != nil {
+		first()
+	}
 	switch react {
 	case "cer:S", "cer:F", "cer:M", "cer:A", "cer:U":
 		c.deliver(ceaFor(react[4:], hbh, e2e))
@@ -204,6 +214,8 @@ func (p *peerScript) hook(c *memConn, b []byte) (int, error) {
 		c.deliver(simpleMsg(280, 0x80, 0, 500+hbh%5, 500, diam.NewAVP(264, 0x40, 0, datatype.DiameterIdentity("srv.example.net")),
 			diam.NewAVP(296, 0x40, 0, datatype.DiameterIdentity("example.net")), diam.NewAVP(278, 0x40, 0, datatype.Unsigned32(77))))
 		c.deliver(simpleMsg(272, 0, 4, 700+hbh%7, 700, diam.NewAVP(268, 0x40, 0, datatype.Unsigned32(2001))))
+	case "cer:L": // a success CEA that takes a third of an interval to arrive
+		go func() { time.Sleep(clientInterval / 3); c.deliver(ceaFor("S", hbh, e2e)) }()
 	case "cer:D":
 		c.peerEOF()
 	case "dwr:A": // answer at once; the reader and dwr() race for who is first
@@ -285,11 +297,43 @@ func execDial(toks []string) string {
 			}
 		}
 	}
+	// conc=1: another dial through the same client starts while this one waits for its CEA (right
+	// after the first CER has been written): each handshake must be decided by the CEA of its own
+	// connection
+	var concDone chan struct{}
+	var startConc func()
+	if cS, _ := kvGet(toks, "conc"); cS == "1" {
+		concDone = make(chan struct{})
+		startConc = func() {
+			oc := newMemConn()
+			oc.local = memAddr{"tcp", "10.8.0.1:3868"}
+			ops := &peerScript{beh: []string{"L"}}
+			oc.writeHook = ops.hook
+			go func() {
+				defer close(concDone)
+				if c, err := cli.NewConn(oc, "mem"); err == nil && c != nil {
+					time.Sleep(clientInterval)
+				}
+				oc.Close()
+			}()
+			// until the other handshake has registered its handlers and written its CER
+			waitFor(func() bool { return oc.nWrites() > 0 }, clientInterval/3)
+		}
+	}
+	defer func() {
+		if concDone != nil && startConc == nil {
+			<-concDone
+		}
+	}()
 	mc := newMemConn()
 	if la, ok := kvGet(toks, "la"); ok && la != "" {
 		mc.local = memAddr{"tcp", la + ":3868"}
 	}
 	ps := &peerScript{beh: splitDots(behS), wf: wf}
+	if startConc != nil {
+		sc := startConc
+		ps.onFirstCER = func() { sc(); startConc = nil }
+	}
 	mc.writeHook = ps.hook
 	type res struct {
 		c   diam.Conn
@@ -569,6 +613,9 @@ func genSMClient(r *RNG, n int, op string, emit func(string)) {
 			line := fmt.Sprintf("smclient dial r=%d cfg=%d beh=%s post=%s wf=%d", R, r.Intn(4), strings.Join(beh, "."), p, wf)
 			if r.Chance(35) { // not the first connection of this client, and not from the usual local address
 				line += fmt.Sprintf(" la=%d.%d.%d.%d prev=%d", 1+r.Intn(220), r.Intn(256), r.Intn(256), 1+r.Intn(250), r.Intn(3))
+			}
+			if r.Chance(25) {
+				line += " conc=1"
 			}
 			emit(line)
 		}
